@@ -113,6 +113,10 @@ def oracle(ctx, obs, spans, windows):
         if k["ls_le_lp"] and not (k["both"] or k["neither"]) and r["class"] == "ok":
             ctx.violation("S5", f"signal wavelength {k['ls']} nm <= pump wavelength {k['lp']} nm is accepted (Ok) [{combo}]; the property "
                           "requires an error", {"kind": "signal_le_pump_accepted"}, detail)
+        pp0 = o["cfg"]["pp"]
+        if pp0 != "off" and pp0["period_um"] != "auto" and f64_of_hex(pp0["period_um"]) == 0.0 and not (k["both"] or k["neither"]) \
+                and not k["ls_le_lp"] and r["class"] != "err":
+            ctx.violation("S5", f"an explicit poling period of 0 is not rejected (outcome {r['class']})", {"kind": "rule_zero_period"}, detail)
         nm = o["shadow"]["oracles"].get("nm_period")
         if k["pp"] == "auto" and nm is not None and not k["ls_le_lp"] and f64_of_hex(nm) > k["length_m"] and r["class"] == "ok":
             ctx.violation("S5", "automatic poling period longer than the crystal is accepted", {"kind": "rule_impossible_period"}, detail)
@@ -126,15 +130,66 @@ def oracle(ctx, obs, spans, windows):
         if calls:
             ctx.count("calls")
             if calls["class"] != "ok":
-                ctx.violation("S5", f"spectrum/rate/HOM call panics on a successfully constructed setup: {calls.get('msg', '')[:120]} at {calls.get('loc')}",
-                              {"kind": "calls_panic", "site": site_function(spans, calls.get("loc", ""))}, dict(detail, calls=calls))
+                msg = calls.get("msg", "")
+                cause = ("optimum_period_does_not_fit" if "Could not determine poling period" in msg else
+                         "nan_cost" if "NelderMead" in msg else
+                         "derivative_assert" if "Derivative" in msg else "other")
+                ctx.violation("S5", f"spectrum/rate/HOM call panics on a successfully constructed setup: {msg[:120]} at {calls.get('loc')}",
+                              {"kind": "calls_panic", "site": site_function(spans, calls.get("loc", "")), "cause": cause}, dict(detail, calls=calls))
             elif calls["inside_window"] and calls["nonfinite"]:
-                ctx.violation("S5", f"non-finite {calls['nonfinite']} from a successfully constructed setup on an in-window grid",
-                              {"kind": "calls_nonfinite", "what": ",".join(calls["nonfinite"])}, dict(detail, calls=calls))
+                cause = "all_zero_jsa" if calls.get("jsa_all_zero") else ("zero_coincidence_counts" if f64_of_hex(calls["cc"]) == 0.0 else "other")
+                ctx.violation("S5", f"non-finite {calls['nonfinite']} from a successfully constructed setup on an in-window grid"
+                              + (" (the coincidence JSA integrates to 0 on the grid: 0/0 in the rate normalisation)" if cause != "other" else ""),
+                              {"kind": "calls_nonfinite", "what": ",".join(calls["nonfinite"]), "cause": cause}, dict(detail, calls=calls))
 
 
 def orc_of(o):
     return o["shadow"]["oracles"]
+
+
+def api_oracle(ctx, obs):
+    """S5 at the Beam / IdlerBeam / SPDC level: a signal wavelength not longer than the pump's is an error there too"""
+    for o in obs:
+        if o.get("kind") != "api":
+            continue
+        ls, lp = f64_of_hex(o["ls"]), f64_of_hex(o["lp"])
+        for call in ("try_new_optimum", "try_new_optimum_unpoled", "optimum_idler", "with_optimum_idler"):
+            ctx.seen(("api", o["case"], call))
+            c = o[call]
+            detail = {"call": call, "signal_wavelength_m": ls, "pump_wavelength_m": lp, "outcome": c}
+            if ls <= lp and c["class"] != "err":
+                ctx.violation("S5", f"{call} with signal wavelength {ls!r} m <= pump wavelength {lp!r} m ends {c['class']} "
+                              f"({c.get('msg', '')[:80]}); the property requires an error", {"kind": "api_signal_le_pump", "call": call}, detail)
+            if ls > lp and (c["class"] != "ok" or c.get("wavelength_ok") is False):
+                ctx.violation("S5", f"{call} fails or gives a non-finite idler for a valid signal/pump pair: {c}", {"kind": "api_valid_rejected", "call": call}, detail)
+
+
+def api_correspondence(ctx, obs, units):
+    """S4: the model's IdlerBeam::try_new_optimum (Model/Config.v: idler_optimum) vs the implementation on the API cases"""
+    cases, index = [], {}
+    for i, o in enumerate(x for x in obs if x.get("kind") == "api"):
+        tbl = cc.otable_term({"idler_theta": "0x0000000000000000", "snell_inv": [], "waist_pos": []})
+        e = (f"cls (idler_optimum Q_ops (oracles_of_table {tbl}) {cc.beam_term(o['signal'])} {cc.beam_term(o['pump'])} "
+             f"{cc.crystal_term(o['crystal'])} PolOff)")
+        cases.append((f"api{i}", e))
+        index[f"api{i}"] = o
+    if not cases:
+        return 0
+    res = run_compute_cases(ctx, "C17api", cc.IMPORTS, "", cases, shards=1)
+    ctx.cov["obligations"] += len(cases)
+    nbad = 0
+    for cid, o in index.items():
+        m = res.get(cid, "").replace("%string", "").strip().strip('"')
+        r = cc.real_class(o["try_new_optimum_unpoled"])
+        if m != r:
+            nbad += 1
+            detail = {"case": o["case"], "model": m, "implementation": o["try_new_optimum_unpoled"]}
+            ctx.case_failures.append(detail)
+            ctx.violation("S4", f"IdlerBeam::try_new_optimum: model {m} vs implementation {r} ({o['case']})",
+                          {"kind": "model_mismatch", "what": "api_idler_optimum"}, detail, found_input=False)
+        else:
+            ctx.cov["discharged"] += 1
+    return nbad
 
 
 def correspondence(ctx, obs, spans, units, label="C17"):
@@ -206,11 +261,12 @@ def run(ctx):
     ctx.cov["translated_spans"] = {k: v for k, v in spans.items() if k.startswith(("pm_type", "polarization", "math::sigfigs", "config::", "site::"))}
     for m in msgs:
         ctx.proof_failures.append(("Gen/Config*.v", "translator", m))
-    proved = (not msgs) and prove(ctx, "C17")
-    # refuted lemmas (known defects on the faithful model) are outside the obligations
+    # Model/ConfigCheck.vo (the executable side of S4) is an explicit build target: S4 runs whenever Props and Model compile
+    proved = (not msgs) and prove(ctx, "C17", extra_targets=["Model/ConfigCheck.vo"])
+    # historical records of repaired defects (flags pinned to their old values); no stage depends on them
     okf, ff, _ = coq_build(ctx, ["Findings/C17_F7.vo"])
     if not okf:
-        ctx.note("finding C17/F7: the refuted lemmas of Findings/C17_F7.v no longer compile (the model or the code changed)")
+        ctx.note("historical record Findings/C17_F7.v does not compile (no check depends on it)")
     n = 400 if ctx.tier == "quick" else 4000
     ncalls = 12 if ctx.tier == "quick" else 80
     if getattr(ctx, "replay", None):
@@ -225,12 +281,9 @@ def run(ctx):
     for o in obs[:40]:
         if o.get("kind") == "cfg" and o["parse"] == "ok":
             ctx.sample({"config": o["json"], "outcome": o["real"]["class"], "message": o["real"]["msg"][:80], "location": o["real"]["loc"]}, limit=5)
-    if os.path.exists(os.path.join(COQ, "Model", "ConfigCheck.vo")):
-        nbad = correspondence(ctx, obs, spans, units)
-    else:
-        nbad = 0
-        ctx.note("correspondence cases skipped: the model did not compile")
+    nbad = correspondence(ctx, obs, spans, units) + api_correspondence(ctx, obs, units)
     oracle(ctx, obs, spans, windows)
+    api_oracle(ctx, obs)
     if (not proved or nbad) and not any(v["found_input"] for v in ctx.violations):
         ctx.log("S5 deep search for a failing input (proof obligations / correspondence are broken)")
         for k in range(3):
